@@ -2,7 +2,21 @@
    nat, positive, Z, Q stay the extracted inductive types). *)
 From Coq Require Extraction.
 From Coq Require Import ExtrOcamlBasic ZArith QArith List.
-From SV Require Import DataSetModel SparseVecModel.
+From SV Require Import DataSetModel SparseVecModel ContainersModel.
 
 Extraction "../extract/C19/model.ml"
-  ds_init ds_step ds_free ds_abs ds_number ds_has_key.
+  ds_init ds_step ds_free ds_abs ds_number ds_has_key ds_has_num ds_key ds_remax ds_set_num ds_clear ds_assign
+  ds_remove_num ds_remove_perm ds_remove_nums pad_perm
+  (* vectors *)
+  dv_get dv_set dv_zero dv_clear dv_redim dv_add dv_sub dv_scale dv_multadd dv_dot dv_length2 dv_maxabs dv_minabs
+  sv_get sv_pos sv_dim sv_add sv_add_list sv_assign sv_remove sv_scale sv_sort sv_dot_dv sv_dot_sv sv_length2
+  sv_maxabs sv_minabs sv_of_dv sv_unit sv_times sv_of_ss
+  dv_multadd_sv dv_add_sv dv_sub_sv dv_multsub_sv dv_assign_sv dv_set_sv
+  ss_new ss_do_setup ss_unsetup ss_clearnum ss_setvalue ss_add ss_clearidx ss_clear ss_scale ss_add_dv ss_sub_dv
+  ss_multadd_dv ss_add_sv ss_sub_sv ss_add_ss ss_sub_ss ss_multadd_sv ss_set_sv dv_add_ss dv_sub_ss dv_multadd_ss
+  dv_dot_ss dv_set_ss ss_dot_ss ss_redim ss_entries rows_tmul Qred
+  (* containers *)
+  is_pos is_dim is_add is_add_list is_remove_pos is_remove_range dis_room dis_setmax
+  ns_names ns_number ns_has ns_key ns_add ns_remove_name ns_remove_num ns_remove_keys ns_remove_nums ns_remove_perm
+  ns_clear ns_remax svs_ensure svs_add ht_get ht_has ht_add ht_remove
+  arr_insert arr_remove arr_remove_last arr_resize lst_append lst_prepend lst_insert_after lst_remove lst_remove_next.
